@@ -94,8 +94,25 @@ pub enum LastLine {
     Header,
 }
 
+/// one simple key inside a (possibly dotted) key path, with the whitespace around it
+#[derive(Clone, Copy, Debug)]
+pub struct Seg {
+    pub pre: Span,
+    pub key: Span,
+    pub post: Span,
+}
+
+/// one occurrence of a key path (header or key/value pair)
+#[derive(Clone, Debug)]
+pub struct PathOcc {
+    pub segs: Vec<Seg>,
+    /// per segment: (path occurrence, segment) whose spelling an implementation that stores ONE key per table entry keeps
+    pub stored: Vec<(usize, usize)>,
+}
+
 #[derive(Clone, Debug, Default)]
 pub struct Layout {
+    pub paths: Vec<PathOcc>,
     pub has_bom: bool,
     /// extents of multi-line string tokens (delimiters included)
     pub ml_spans: Vec<Span>,
@@ -109,6 +126,10 @@ pub struct Layout {
     pub ends_with_newline: bool,
     /// statement kinds in order: 'h' header, 'a' array header, 'k' keyval
     pub statements: Vec<char>,
+    /// every key/value pair as (scope id, decoded key path); scope = section (root = 0, +1 per header) or a fresh id (>= 1_000_000) per inline table
+    pub keyvals: Vec<(usize, Vec<String>)>,
+    /// number of inline-table scopes handed out so far
+    pub inline_scopes: usize,
 }
 
 #[derive(Clone, Debug)]
